@@ -81,3 +81,17 @@ func VH_C06_v3_roundup_kernel() {
 	vrt.Assert(r == float64(k)/10, "roundUp(x) is exactly the double nearest to k/10")
 	vrt.Assert(r >= x-0.00001 && r < x+0.100001, "roundUp(x) is the next tenth at or above x (up to the 1e-5 tolerance of Appendix A)")
 }
+
+// C06, v3 environmental level (complete 1.1e12 domain, relative to the library's own score): the score is
+// on the tenth grid within 0.0 .. 10.0, prints with at most one decimal, and the severity is its band.
+func VH_C06_v3_env() {
+	vec, _, _, _, _, _, _, _, _, _ := pickBaseVector()
+	tsuf, _, _, _ := pickTemporal()
+	esuf, _, _, _, _, _, _, _, _, _, _, _ := pickEnv()
+	em, err := NewEnvironmental().Decode(vec + tsuf + esuf)
+	vrt.Assert(err == nil, "canonical environmental vector is accepted")
+	if err != nil {
+		return
+	}
+	gridAndBand(em.Score(), em.Severity(), "environmental")
+}
